@@ -283,15 +283,17 @@ static int write_user_data()
 		return -1;
 	}
 
-	cjet_ssize_t written = 0;
-	cjet_ssize_t to_write = strlen(data);
-	while (written < to_write) {
-		written = write(password_file, data, to_write);
+	const char *write_ptr = data;
+	size_t to_write = strlen(data);
+	while (to_write > 0) {
+		cjet_ssize_t written = write(password_file, write_ptr, to_write);
 		if (written < 0) {
 			log_err("Could not write password file\n");
+			cjet_free(data);
 			return -1;
 		}
-		to_write -= written;
+		write_ptr += written;
+		to_write -= (size_t)written;
 	}
 
 	cjet_free(data);
